@@ -1136,3 +1136,13 @@ PROPS["C14"]["claim"] = PROPS["C14"]["claim"] + " At start-up ValueTable::init_t
 UNIT_META["free_list"]["functions"] = UNIT_META["free_list"]["functions"] + ["table::ValueTable::complete_plan"]
 UNIT_META["free_list"]["assumes"] = UNIT_META["free_list"]["assumes"] + ["complete_plan: Header::{default, set_last_removed, set_filled} and `buf.0.to_vec()` are contracts over an uninterpreted 16-byte header codec (Kani U5 on the real Header); AtomicBool::compare_exchange has its std meaning on a plain cell"]
 PROPS["C14"]["claim"] = PROPS["C14"]["claim"] + " ValueTable::complete_plan (Verus) writes the header to the log exactly when the list head or the fill mark changed since it was last written, with their current values, and takes the change flag down."
+
+# ---------------------------------------------------------------- U79 (Verus: growth bookkeeping, unbounded over the queue of older index tables)
+UNIT_META["reindex_queue"] = {"functions": ["column::HashColumn::trigger_reindex (fragment: between upgrading and downgrading the guards)", "column::HashColumn::drop_index"],
+                              "assumes": ["the upgraded write guards of `tables` / `reindex` are `&mut` parameters / a field of the wrapper (listed rewrites); the progress counter is a plain cell; std::mem::replace by contract",
+                                          "the closure `front_mut().map_or(false, |e| ..)` of drop_index is the contract front_is_index (literal shape rewrite); IndexTable::{create_new, drop_file} and IndexTableId::{new, col, index_bits} are contracts over uninterpreted functions"]}
+for _p in ("C09", "C14", "C01"):
+    PROPS[_p]["verus_units"] = list(PROPS[_p].get("verus_units", [])) + ["reindex_queue"]
+_U79 = " Growth bookkeeping, unbounded over the number of queued tables (Verus): trigger_reindex puts the index that filled up at the back of the queue, leaves the progress of the migration under way alone and continues on a fresh index one bit larger; drop_index removes a table only if it is the one at the front of the queue, removes its file and resets the progress counter so that the next table is migrated from its first chunk; any other id changes nothing."
+for _p in ("C09", "C14"):
+    PROPS[_p]["claim"] = PROPS[_p]["claim"] + _U79
